@@ -75,14 +75,16 @@ type C07Custom struct {
 
 // C07Ps: one PS packing of the frames.
 type C07Ps struct {
-	PesMax    int  `json:"pes_max"`     // PES payload limit (a frame larger than this spans several PES packets)
-	Dts       bool `json:"dts"`         // PES headers carry DTS (= PTS) as well
-	PtsOnCont bool `json:"pts_on_cont"` // continuation PES packets of a frame repeat the PTS
-	HdrStuff  int  `json:"hdr_stuff"`   // stuffing bytes in PES headers
-	PackStuff int  `json:"pack_stuff"`  // stuffing bytes in pack headers
-	SysHdr    bool `json:"sys_hdr"`     // system header in front of each PSM
-	Start3    bool `json:"start3"`      // 3-byte start codes on the non-first slices of a frame
-	PsmAll    bool `json:"psm_all"`     // PSM in every pack instead of only in key-frame packs
+	PesMax    int  `json:"pes_max"`               // PES payload limit (a frame larger than this spans several PES packets)
+	Dts       bool `json:"dts"`                   // PES headers carry DTS (= PTS) as well
+	PtsOnCont bool `json:"pts_on_cont"`           // continuation PES packets of a frame repeat the PTS
+	HdrStuff  int  `json:"hdr_stuff"`             // stuffing bytes in PES headers
+	PackStuff int  `json:"pack_stuff"`            // stuffing bytes in pack headers
+	SysHdr    bool `json:"sys_hdr"`               // system header in front of each PSM
+	Start3    bool `json:"start3"`                // 3-byte start codes on the non-first slices of a frame
+	PsmAll    bool `json:"psm_all"`               // PSM in every pack instead of only in key-frame packs
+	AudioIn   bool `json:"audio_in"`              // an audio frame that directly follows a video frame rides in that frame's pack
+	AacPerPes int  `json:"aac_per_pes,omitempty"` // 2: two consecutive AAC frames share one PES packet (PTS of the first)
 }
 
 func (p *C07Plan) kind() string {
@@ -145,8 +147,13 @@ func genC07Plan(r *sim.Rng, tier string) C07Plan {
 			p.Custom.BaseMs = 0
 		}
 	case "gb":
+		defer func() {
+			if p.Audio == "aac" && r.Bool(0.25) {
+				p.Ps.AacPerPes, p.Ps.AudioIn = 2, false
+			}
+		}()
 		p.Ps = &C07Ps{PesMax: []int{65535, 65535, 8000, 1400, 300}[r.Intn(5)], Dts: r.Bool(0.3), PtsOnCont: r.Bool(0.5), HdrStuff: []int{0, 0, 1, 3}[r.Intn(4)],
-			PackStuff: []int{0, 0, 2, 7}[r.Intn(4)], SysHdr: r.Bool(0.7), Start3: r.Bool(0.3), PsmAll: r.Bool(0.2)}
+			PackStuff: []int{0, 0, 2, 7}[r.Intn(4)], SysHdr: r.Bool(0.7), Start3: r.Bool(0.3), PsmAll: r.Bool(0.2), AudioIn: r.Bool(0.3)}
 	}
 	p.AacSrIdx = r.Intn(len(aacRates))
 	if r.Bool(0.4) {
@@ -332,6 +339,7 @@ type c07Src struct {
 	pktEnd [2][]int          // per track: for each unit the index (in pkts) of its last packet
 	raw    [][][]byte        // per frame: every NAL unit (video) or the one audio frame, as the publisher has them
 	lastFr [2]int            // per track: index of its last frame (-1 none)
+	tailFr map[int]bool      // PS: frames carried by the last PES of their track (a PES is only complete when the next one starts)
 }
 
 func (p *C07Plan) paramSets(gen int) (vps, sps, pps []byte) {
@@ -343,7 +351,7 @@ func (p *C07Plan) paramSets(gen int) (vps, sps, pps []byte) {
 }
 
 func buildC07(p *C07Plan) *c07Src {
-	s := &c07Src{plan: p, gens: map[int][3][]byte{}, sdpGen: -1, lastFr: [2]int{-1, -1}}
+	s := &c07Src{plan: p, gens: map[int][3][]byte{}, sdpGen: -1, lastFr: [2]int{-1, -1}, tailFr: map[int]bool{}}
 	kind := p.kind()
 	var ps *psPacker
 	if kind == "gb" {
@@ -374,6 +382,7 @@ func buildC07(p *C07Plan) *c07Src {
 	case "opus":
 		pk[1].PT = 111
 	}
+	pairedWithPrev := map[int]bool{}
 	for fi, f := range p.Frames {
 		var idx []int
 		if f.Track == 1 {
@@ -389,6 +398,31 @@ func buildC07(p *C07Plan) *c07Src {
 				}
 				s.pktEnd[1] = append(s.pktEnd[1], len(s.pkts[1])-1)
 			case "gb":
+				if p.Ps.AudioIn && fi > 0 && p.Frames[fi-1].Track == 0 {
+					break // already sent inside the pack of the video frame before it
+				}
+				if p.Ps.AacPerPes == 2 && p.Audio == "aac" {
+					if pairedWithPrev[fi] {
+						s.tailFr[fi] = true // rode in the PES of the audio frame before it
+						break
+					}
+					for x := range s.tailFr {
+						if p.Frames[x].Track == 1 {
+							delete(s.tailFr, x)
+						}
+					}
+					s.tailFr[fi] = true
+					// (only frames that are contiguous in time: a PES has one PTS, the second frame's time is implied)
+					if fi+1 < len(p.Frames) && p.Frames[fi+1].Track == 1 && p.Frames[fi+1].Ts == f.Ts+1024 {
+						pairedWithPrev[fi+1] = true
+						data = append(makeAdts(data, p.AacSrIdx, 2), makeAdts(media.Body(7, 1, fi+1, p.Frames[fi+1].N), p.AacSrIdx, 2)...)
+						for _, q := range ps.audioRaw(data, f.Ts, fi == 0) {
+							idx = append(idx, len(s.pkts[0]))
+							s.pkts[0] = append(s.pkts[0], q)
+						}
+						break
+					}
+				}
 				for _, q := range ps.audio(data, f.Ts, fi == 0) {
 					idx = append(idx, len(s.pkts[0]))
 					s.pkts[0] = append(s.pkts[0], q)
@@ -453,7 +487,11 @@ func buildC07(p *C07Plan) *c07Src {
 				s.pkts[0] = append(s.pkts[0], q)
 			}
 		case "gb":
-			for _, q := range ps.video(nals, f.Ts, anyKey, fi == 0) {
+			var extra []byte
+			if p.Ps.AudioIn && fi+1 < len(p.Frames) && p.Frames[fi+1].Track == 1 {
+				extra = ps.audioPes(media.Body(7, 1, fi+1, p.Frames[fi+1].N), p.Frames[fi+1].Ts)
+			}
+			for _, q := range ps.video(nals, f.Ts, anyKey, fi == 0, extra) {
 				idx = append(idx, len(s.pkts[0]))
 				s.pkts[0] = append(s.pkts[0], q)
 			}
@@ -985,7 +1023,7 @@ func runC07(k *sim.Kernel, p C07Plan) {
 			case "custom":
 				must[t][i] = true // handed over frame by frame, nothing to wait for
 			case "gb":
-				must[t][i] = u.Frame != src.lastFr[t] // a PS access unit is complete when the next one of its track starts
+				must[t][i] = u.Frame != src.lastFr[t] && !src.tailFr[u.Frame] // a PS access unit is complete when the next one of its track starts
 			default:
 				must[t][i] = !both || newestOther >= ms+2
 			}
